@@ -22,7 +22,10 @@ func specC04() *propertySpec {
 			"Not decided: user side effects in rejected Custom attempts; equality of verdicts beyond equality of draws.",
 		Assumptions: []string{"-rapid.steps and collection minimum lengths are below 2^52 (beyond that 1-1/(1+avg) rounds to 1 and a zero coin word no longer means stop)"},
 		Rules: []ruleSpec{
-			{"C04-R1", "nondeterminism-census: no nondeterminism source, go/select, map iteration or unlisted global read in the generation closure", func(r *Run) { nondetCensus(r, "generation", []string{"<generation>"}, false) }},
+			{"C04-R1", "nondeterminism-census: no nondeterminism source, go/select, map iteration or unlisted global read in the generation closure; the stream position (not reset between test cases) is used only relatively (shared with C11-R3)", func(r *Run) {
+				nondetCensus(r, "generation", []string{"<generation>"}, false)
+				ruleStreamPositionRelative(r)
+			}},
 			{"C04-R2", "reseed-per-case: findBug re-initialises the shared PRNG in every iteration; jsf64ctx.init writes all state words before the first rand(); Example(seed) passes the seed verbatim", ruleC04R2},
 			{"C04-R3", "draw-equals-record: both drawBits record exactly the returned value, masked by bitmask64(n); the buffer stream consumes one word per call; buf is touched nowhere else", func(r *Run) { ruleC04R3(r); ruleC04R3buf(r) }},
 			{"C04-R4.4", "discard-taint: state written by (*repeat).reject influences later draws only through the discard flag, the net-zero count, or a replay-neutral forced stop", ruleC04R44},
@@ -131,16 +134,11 @@ func ruleC04R3(r *Run) {
 			continue
 		}
 		recs := p.callsTo(fn, "(*recordedBits).record")
-		if len(recs) != 1 {
-			r.Fail(name+"#record", fn.Pos(), fmt.Sprintf("%s calls record %d times (expected once per draw)", name, len(recs)))
+		if len(recs) == 0 {
+			r.Fail(name+"#record", fn.Pos(), name+" never calls record")
 			continue
 		}
-		rec := recs[0]
 		nPar := paramNamed(fn, "n")
-		for _, ret := range returnsOf(fn) {
-			rv := p.res(ret, 0)
-			r.Check(name+"#return=recorded", ret.Pos(), p.same(rv, rec.Arg(0)) && dominates(rec.Instr, ret), "the returned value is the recorded value", "drawBits returns "+p.expr(rv)+" but records "+p.expr(rec.Arg(0))+": a replay of the recording sees other bits than the original run")
-		}
 		// masking
 		check := func(v ssa.Value, pos token.Pos, what string) {
 			bo, ok := p.resolve(v).(*ssa.BinOp)
@@ -156,19 +154,39 @@ func ruleC04R3(r *Run) {
 			}
 			r.Check(name+"#mask", pos, okMask, what+" is masked with bitmask64(uint(n))", what+" is "+p.expr(v)+": not masked to n bits with bitmask64(uint(n)) — run and replay (which masks) disagree")
 		}
-		val := p.resolve(rec.Arg(0))
-		if ph, ok := val.(*ssa.Phi); ok {
-			for i, e := range ph.Edges {
-				pred := ph.Block().Preds[i]
-				facts := p.facts(pred.Instrs[len(pred.Instrs)-1])
-				if c, isC := p.resolve(e).(*ssa.Const); isC {
-					r.Check(name+"#wide", ph.Pos(), p.expr(c) == "18446744073709551615" && holds(facts, "$n", ">", "64"), "n > 64 yields all ones", "the constant edge of the drawn value is "+p.expr(c)+" under "+factsStr(facts))
+		checked := map[*callSite]bool{}
+		for _, ret := range returnsOf(fn) {
+			// exactly one record on every path to this return
+			var dom []*callSite
+			extra := false
+			for _, rec := range recs {
+				if dominates(rec.Instr, ret) {
+					dom = append(dom, rec)
+				} else if reachable(rec.Instr, ret, nil) {
+					extra = true
+				}
+			}
+			if len(dom) != 1 || extra {
+				r.Fail(name+"#record", ret.Pos(), fmt.Sprintf("on the paths to this return %s calls record %d times unconditionally (conditionally: %v); expected exactly once per draw", name, len(dom), extra))
+				continue
+			}
+			rec := dom[0]
+			rv := p.res(ret, 0)
+			r.Check(name+"#return=recorded", ret.Pos(), p.same(rv, rec.Arg(0)), "the returned value is the recorded value", "drawBits returns "+p.expr(rv)+" but records "+p.expr(rec.Arg(0))+": a replay of the recording sees other bits than the original run")
+			if checked[rec] {
+				continue
+			}
+			checked[rec] = true
+			for _, a := range p.alternatives(rec.Arg(0), 0) {
+				facts := append(p.facts(rec.Instr), a.Facts...)
+				if c, isC := p.resolve(a.Val).(*ssa.Const); isC {
+					// the saturating draw (n > 64) must have all 64 bits set: replayed under the mask of any narrower
+					// full-width draw it must read as that draw's maximum
+					r.Check(name+"#wide", rec.Instr.Pos(), p.expr(c) == "18446744073709551615" && holds(facts, "$n", ">", "64"), "n > 64 yields all ones", "the constant drawn value is "+p.expr(c)+" under "+factsStr(facts)+" (expected all 64 bits set, only for n > 64)")
 					continue
 				}
-				check(e, ph.Pos(), "the drawn word")
+				check(a.Val, rec.Instr.Pos(), "the drawn word")
 			}
-		} else {
-			check(val, rec.Instr.Pos(), "the drawn word")
 		}
 	}
 	if fn := r.MustFn("bitmask64"); fn != nil {
